@@ -737,7 +737,11 @@ func runAff2(m *Model, r *RuleResult) {
 						}
 						for j, want := range []string{"[3]", "[2]", "[1]", "[0]"} {
 							s := avalString(its[j].val)
-							if !strings.HasSuffix(s, ".Float64Slice()"+want) || !strings.HasPrefix(s, il.valVar+".") {
+							pieceOK := il.valVar != "" && strings.HasPrefix(s, il.valVar+".")
+							if !pieceOK && il.elem != "" && strings.HasPrefix(s, il.elem+".") {
+								pieceOK = true // index loop: the piece is container[i]
+							}
+							if !strings.HasSuffix(s, ".Float64Slice()"+want) || !pieceOK {
 								bad = append(bad, fmt.Sprintf("control %d of a piece is %s, expected %s.Float64Slice()%s", j, s, il.valVar, want))
 							}
 						}
